@@ -55,6 +55,11 @@ func Import(e *env.Env) *env.Env {
 		arr := []int64{}
 		for i := start; (step > 0 && i < stop) || (step < 0 && i > stop); i += step {
 			arr = append(arr, i)
+			// the next element would be past stop: do not let i += step wrap around
+			// (distances are taken in uint64, where they cannot overflow)
+			if (step > 0 && uint64(stop)-uint64(i) <= uint64(step)) || (step < 0 && uint64(i)-uint64(stop) <= uint64(-step)) {
+				break
+			}
 		}
 		return arr
 	})
